@@ -259,6 +259,7 @@ Section Run.
         apply pres_srv_send, stable_Dead0.
       + apply pres_bind; [apply pres_emit; discriminate|intros ?]. apply pres_srv_send, stable_Dead0.
     - apply pres_bind; [apply pres_modify; unfold Dead0; intros; assumption|intros ?].
+      apply pres_bind; [apply pres_modify; unfold Dead0; intros; assumption|intros ?].
       apply pres_bind; [apply pres_emit; discriminate|intros ?]. apply pres_srv_send, stable_Dead0.
   Qed.
 
@@ -364,7 +365,7 @@ Section Run.
   Lemma handle_one_tri : tri Serial (handle_one cfg stream_headers ws_token ws_ext ws_sends) (fun _ => Serial) Serial.
   Proof.
     unfold handle_one. apply tri_bind_get. intro p0.
-    destruct (last_response_in_progress p0); [apply tri_ret; tauto|].
+    destruct (p_closed p0 || last_response_in_progress p0); [apply tri_ret; tauto|].
     eapply tri_bind with (Mid := fun _ => Serial).
     { eapply tri_conseq with (Pre' := Serial) (Q' := fun _ => Serial) (R' := Serial); [|tauto|auto|auto].
       destruct (_ && _); [apply pres_send_h11_event, stable_Serial|apply pres_ret]. }
@@ -444,7 +445,7 @@ Section Run.
   Proof.
     intro Hp. destruct i as [evs| |m evs|].
     - apply pres_step_ok; [|exact Hp]. cbn [proto_step].
-      apply pres_bind; [apply pres_get|intro p0]. destruct (last_response_in_progress p0); [apply pres_ret|].
+      apply pres_bind; [apply pres_get|intro p0]. destruct (p_closed p0 || last_response_in_progress p0); [apply pres_ret|].
       apply pres_bind; [apply pres_emit; discriminate|intros ?].
       apply pres_bind; [apply pres_modify; intros; apply (st_events _ stable_Serial); assumption|intros ?].
       apply handle_events_pres.
